@@ -179,14 +179,25 @@ class GenerateWasmVisitor(Visitor.DefaultVisitor):
     def v_BinaryInstruction(self, bi: LinearIR.BinaryInstruction, ctx: Context):
         assert ctx.Code
 
-        if isinstance(bi.Type, LinearIR.IntegerType):
+        # A comparison is performed on the type of its operands; its own
+        # type is the (integer) result
+        if bi.OpCode in {
+            LinearIR.OpCode.CMP_EQ,
+            LinearIR.OpCode.CMP_LT,
+            LinearIR.OpCode.CMP_GT,
+        }:
+            operandType = bi.Values[0].Type
+        else:
+            operandType = bi.Type
+
+        if isinstance(operandType, LinearIR.IntegerType):
             operationType = "i32"
-            unsigned = bi.Type.Unsigned
-        elif isinstance(bi.Type, LinearIR.FloatType):
+            unsigned = operandType.Unsigned
+        elif isinstance(operandType, LinearIR.FloatType):
             operationType = "f32"
         else:
             raise RuntimeError(
-                f"Unsupported type for binary operation: {bi.Type}"
+                f"Unsupported type for binary operation: {operandType}"
             )
 
         for value in bi.Values:
@@ -208,6 +219,7 @@ class GenerateWasmVisitor(Visitor.DefaultVisitor):
             LinearIR.OpCode.ADD,
             LinearIR.OpCode.SUB,
             LinearIR.OpCode.MUL,
+            LinearIR.OpCode.CMP_EQ,
         }:
             if unsigned:
                 opCode += "_u"
